@@ -877,6 +877,9 @@ def gen_relay(rng, profile='relay', n_events=None, max_send=None, handler=None):
     slow_client = rng.random() < 0.4          # the client reads slowly: few writable reports, small accepts
     case['client_plan'] = client_plan
     case['up_plan'] = up_plan
+    # spurious client wake-ups (readable, nothing to read: recv raises and the handler tears the reading side down) are a
+    # feature of SOME cases, so that most histories have no teardown cause other than the scripted ending
+    spurious = rng.random() < 0.15
     for i in range(n_events):
         gap = rng.choice([0, 1, 5, 300]) if profile != 'timed' else rng.choice([1, 200, TICK, max(timeout_ticks(case) - 1, 0),
                                                                                 timeout_ticks(case), timeout_ticks(case) + 1])
@@ -884,7 +887,7 @@ def gen_relay(rng, profile='relay', n_events=None, max_send=None, handler=None):
         ev = dict(now=now, r=[], w=[])
         if rng.random() < (0.6 if i < 4 else 0.35):
             ev['cr'] = True                       # client readable: next piece of the client stream
-        elif rng.random() < 0.03:
+        elif spurious and rng.random() < 0.12:
             ev['r'].append('client')              # spurious wake-up: recv would block
         if rng.random() < 0.5:
             ev['ur'] = True                       # upstream readable: next piece of the upstream stream
